@@ -28,7 +28,8 @@ Hypotheses (each satisfiable, see the `example`s at the end):
 * `NoCollisionOn H (streams of the history)` — the digest has no collision AMONG THE FINITELY MANY
   KEYS OF THE HISTORY (`H` is NOT assumed injective: md5 is not);
 * `Respects E fn` — the function is a pure function of its arguments and ignores the ignored ones;
-* one cached function per function identifier (two functions under one identifier: C12).
+* one cached callable per function identifier (two functions under one identifier: C12; all
+  `functools.partial` objects share one identifier — `shared_function_id_stale_reference_counterexample`).
 
 FULL STATEMENT: the same for ALL argument values of the universe.  It is FALSE on the
 digest-fallback path: by F12 (C08, a known finding) a set / dict with mutually unorderable keys and
@@ -150,6 +151,37 @@ theorem fallback_collision_counterexample (ver : JoblibModel.MemoryCache.Version
     have : fnF12.fid = 0 := rfl
     simp [this, dget]
   simp only [run, JoblibModel.MemoryCache.step, e1, e2]
+
+/-! ## One function identifier for several callables makes shelved references ambiguous (F34)
+
+`UnivOK.fids` (one cached callable per function identifier) is needed: every `functools.partial`
+object gets the identifier `functools/unknown` (F32), and a `MemorizedResult` names its value by
+(function id, args id) alone — `.get()` does not look at `func_code.py`. -/
+
+/-- `functools.partial(g, 1)` and `functools.partial(g, 2)` for `def g(a)`: the same function id -/
+def fnPart1 : Fn (List (Nat × Val)) := ⟨7, .part [⟨0, .posKw, none⟩] [1] [], [], fun b => b⟩
+def fnPart2 : Fn (List (Nat × Val)) := ⟨7, .part [⟨0, .posKw, none⟩] [2] [], [], fun b => b⟩
+
+/-- **Counterexample without `fids`** (either version of the code, any digest): `r = p1.call_and_shelve()`;
+then `p2()` — its "source" differs, so `_check_previous_func_code` wipes the shared directory
+(`clearFn`) and `p2`'s result is stored under the same (function id, args id); `r.get()` then
+returns `p2`'s value `g(2)`, not `g(1)`. -/
+theorem shared_function_id_stale_reference_counterexample (ver : JoblibModel.MemoryCache.Version)
+    (H : Bs → Bs) :
+    run ver H envEx St.empty
+        [.shelve fnPart1 ⟨[], []⟩ true, .clearFn fnPart2, .call fnPart2 ⟨[], []⟩ true, .get fnPart1 ⟨[], []⟩] =
+      [.ref true, .done, .value [(0, .one 2)] true, .value [(0, .one 2)] false] ∧
+    bindOf fnPart1.cal ⟨[], []⟩ = .ok [(0, .one 1)] := by
+  refine ⟨?_, by decide⟩
+  have b1 : bindOf fnPart1.cal ⟨[], []⟩ = .ok [(0, .one 1)] := by decide
+  have b2 : bindOf fnPart2.cal ⟨[], []⟩ = .ok [(0, .one 2)] := by decide
+  have f1 : fnPart1.fid = 7 := rfl
+  have f2 : fnPart2.fid = 7 := rfl
+  have a1 : argDict fnPart1.cal fnPart1.ig ⟨[], []⟩ = .ok [(.star, .seq []), (.dstar, .map [])] := rfl
+  have a2 : argDict fnPart2.cal fnPart2.ig ⟨[], []⟩ = .ok [(.star, .seq []), (.dstar, .map [])] := rfl
+  simp only [run, JoblibModel.MemoryCache.step, cachedCall, argsId, a1, a2, isInCacheAndValid, checkCode,
+    St.empty, compute, b1, b2, f1, f2]
+  simp [dget, dset, fnPart1, fnPart2]
 
 /-! ## Non-vacuity: the hypotheses hold for a non-trivial history
 
